@@ -110,12 +110,14 @@ class Sim:
                 if d.get(k) != v:
                     self.mods[tid].add(k)
                 d[k] = v
+                self.note_height(tid, d)
         elif op == "del":
             k, v = t[2], t[3]
             if k in d and d[k] == v:
                 if self.expect("del", idx, ob, "ok"):
                     self.point(idx, tid, "del", k, ob, changed=True)
                     del d[k]; self.mods[tid].add(k)
+                    self.note_height(tid, d)
                 else:
                     # the entry may or may not be gone; contents unknown from here on
                     self.trees[tid] = None
@@ -154,7 +156,7 @@ class Sim:
                 self.mods[n] = set(self.mods[tid]); self.hchg[n] = self.hchg[tid]; self.lasth[n] = self.lasth.get(tid, 0)
                 self.cur_root[n] = self.cur_root.get(tid)
                 self.hash_rooted.discard(n)
-                self.facts["point"].append((idx, "clone", None, len(ob["loads"]), None, None))
+                self.facts["point"].append((idx, "clone", None, len(ob["loads"]), None, (None, None)))
         elif op == "dirty":
             if self.expect("dirty", idx, ob, "ok"):
                 if ob["payload"] == "b:0" and self.base.get(tid) is not None and self.base[tid] != d:
@@ -273,8 +275,31 @@ class Sim:
     roots_perturbed = None
     corrupted = None
 
+    def note_height(self, tid, d):
+        """the height the canonical-form rule gives for the contents after every change: a height that moved away
+        from the base version's and back (delete + reinsert, drain + refill) HAS changed since that version, even
+        if every Height() observation in the history happens to see the old value"""
+        base = self.base.get(tid)
+        if base is None:
+            return
+        bf = self.tbf.get(tid, 16)
+        if canon_height(list(d), bf) != canon_height(list(base), bf):
+            self.hchg[tid] = True
+
     def point(self, idx, tid, what, k, ob, changed):
-        self.facts["point"].append((idx, what, k, len(ob["loads"]), self.lasth.get(tid), tid))
+        # the height before and after the call, by the canonical-form rule on the reference contents (the call sites
+        # invoke this before they apply the change to d)
+        d = self.trees.get(tid); bf = self.tbf.get(tid, 16)
+        hb = ha = None
+        if d is not None:
+            hb = canon_height(list(d), bf)
+            keys = set(d)
+            if what == "ins":
+                keys.add(k)
+            elif what == "del":
+                keys.discard(k)
+            ha = canon_height(list(keys), bf)
+        self.facts["point"].append((idx, what, k, len(ob["loads"]), hb, (tid, ha)))
 
 def simulate(header, ops, obs):
     s = Sim(header, ops, obs)
@@ -424,22 +449,19 @@ def check_point(sim):
     """C16: loads of point operations on persisted trees (no cache)"""
     if sim.opts.get("cache", "none") != "none":
         return
-    for idx, what, k, nloads, h, tid in sim.facts["point"]:
+    for idx, what, k, nloads, h, extra in sim.facts["point"]:
         if what == "clone":
             if nloads > 1:
                 sim.fail("reads", idx, "clone read %d nodes" % nloads)
             continue
         if h is None:
             continue
-        nxt = [x for x in sim.facts["heights"] if x[0] > idx]
+        after = extra[1]
         if what == "get" and nloads > h + 1:
             sim.fail("reads", idx, "lookup read %d nodes at height %d" % (nloads, h))
         if what in ("ins", "del", "del-miss"):
-            # only when the height is known not to change: the generator asks for the height after each point op
-            after = None
-            for f in sim.facts["heights"]:
-                if f[0] == idx + 1:
-                    after = f[1]
+            # only when the call does not change the height (heights by the canonical-form rule on the reference
+            # contents before and after the call; that the tree's height is that height is C04's check)
             if after is not None and after == h and nloads > 2 * (h + 1):
                 sim.fail("reads", idx, "%s read %d nodes at height %d (bound %d)" % (what, nloads, h, 2 * (h + 1)))
     for f in sim.facts["loads"]:
